@@ -77,6 +77,7 @@ def do_step(cur_root, persistent, ri, k, objs, prev):
 def walk(job):
     """job = (text, script) ; script: list of (rule index, in-order node) pairs, or ('random', seed, length)"""
     text, script = job
+    common.process_noise(len(text))
     try:
         t0 = rewrite.parse(text)
     except BaseException:  # noqa
